@@ -233,7 +233,9 @@ func c09Limit(run *ev.Run, N int, protocol string, kind svc.Kind, side string, g
 
 var errEOFSentinel = errors.New("eof sentinel")
 
-func isEOFErr(err error) bool { return err != nil && strings.Contains(err.Error(), "EOF") && connect.CodeOf(err) == connect.CodeUnknown }
+func isEOFErr(err error) bool {
+	return err != nil && strings.Contains(err.Error(), "EOF") && connect.CodeOf(err) == connect.CodeUnknown
+}
 
 func rel(a, b int) string {
 	switch {
